@@ -43,7 +43,7 @@ def txExtra (t : Tx) : String :=
   s!" stripped={toHex (t.ser false)} ssize={t.size false} weight={t.weight} vsize={t.vsize} id={toHex (t.id hash256)} wid={toHex (t.wid hash256)} segwit={t.isSegwit}"
 
 def blockExtra (b : Block) : String :=
-  s!" ssize={b.size false} weight={b.weight} stripped={toHex (hash256 (b.serW false))}"
+  s!" ssize={b.size false} weight={b.weight} stripped={toHex (hash256 (b.serW false))} segwit={b.isSegwit}"
 
 def none' {α : Type} (_ : α) : String := ""
 
